@@ -181,12 +181,18 @@ def _alarm(signum, frame):
 
 
 def with_alarm(seconds, fn, *a, **k):
+    """the limit counts CPU time of this process (a loaded machine is not a hang); wall-clock time is only a distant backstop
+    for a call that blocks without computing"""
     old = signal.signal(signal.SIGALRM, _alarm)
-    signal.setitimer(signal.ITIMER_REAL, seconds)
+    oldp = signal.signal(signal.SIGPROF, _alarm)
+    signal.setitimer(signal.ITIMER_PROF, seconds)
+    signal.setitimer(signal.ITIMER_REAL, seconds * 20)
     try:
         return fn(*a, **k)
     finally:
+        signal.setitimer(signal.ITIMER_PROF, 0)
         signal.setitimer(signal.ITIMER_REAL, 0)
+        signal.signal(signal.SIGPROF, oldp)
         signal.signal(signal.SIGALRM, old)
 
 
